@@ -1,5 +1,5 @@
 import Model
-import Generated
+import Generated.Facts
 
 /-
   The key dispatch of `ui.State.Update`, read from the source on every run (`Generated.keymap`,
